@@ -152,3 +152,123 @@ Proof.
   cbn [i_tce i_succ i_e e_script setup_env]. rewrite Hp.
   destruct (c_sigver c =? SV_TAPSCRIPT); cbn [map app concat]; rewrite app_nil_r; reflexivity.
 Qed.
+
+(* ------------------------------------------------------------------ legacy spends: scriptSig section, header, scriptPubKey section *)
+Section TwoSections.
+Variable low_s : bytes -> bool.
+Variable tap_tweak_ok : bytes -> bytes -> bytes -> bool -> bool.
+Variable sha256 : bytes -> bytes.
+Variable c : cfg.
+Notation dbg_step := (Session.dbg_step low_s tap_tweak_ok sha256).
+
+(* the listing of a session whose scriptPubKey is not pay-to-script-hash: operations of the scriptSig, the header line, operations of the scriptPubKey *)
+Definition two_listing (script succ : bytes) : list str :=
+  number_from 0 (map (fun op => (true, op_line op)) (decode_ops script) ++ [(false, HDR_SPK)] ++ map (fun op => (true, op_line op)) (decode_ops succ)).
+
+(* phase A: inside the scriptSig; phase B: inside the scriptPubKey *)
+Definition inv2 (script succ : bytes) (v : ienv) : Prop :=
+  i_tce v = None /\ i_p2sh v = false /\
+  ((i_succ v = succ /\ e_script (i_e v) = script /\
+    exists pre, decode_ops script = pre ++ decode_ops (i_pc v) /\ i_seq v = Z.of_nat (length pre))
+   \/
+   (i_succ v = [] /\ e_script (i_e v) = succ /\
+    exists pre, decode_ops succ = pre ++ decode_ops (i_pc v) /\ i_seq v = Z.of_nat (length (decode_ops script)) + 1 + Z.of_nat (length pre))).
+
+Lemma two_listing_nth_A : forall script succ pre op rest, decode_ops script = pre ++ op :: rest ->
+  marked_line (two_listing script succ) (Z.of_nat (length pre)) = Some (numbered (Z.of_nat (length pre)) (op_line op)).
+Proof.
+  intros script succ pre op rest Hd. unfold two_listing. rewrite Hd.
+  set (texts := map (fun o => (true, op_line o)) (pre ++ op :: rest) ++ [(false, HDR_SPK)] ++ map (fun o => (true, op_line o)) (decode_ops succ)).
+  assert (Hn: nth_error texts (length pre) = Some (true, op_line op)).
+  { unfold texts. rewrite map_app. rewrite <- app_assoc. rewrite nth_error_app2 by (rewrite map_length; lia). rewrite map_length, Nat.sub_diag. reflexivity. }
+  rewrite marked_is_nth by (rewrite number_from_length; unfold texts; rewrite !app_length, !map_length, app_length; cbn [length]; lia).
+  rewrite Nat2Z.id. rewrite (number_from_nth texts 0 _ _ _ Hn). rewrite Z.add_0_l. reflexivity.
+Qed.
+
+Lemma two_listing_nth_header : forall script succ,
+  marked_line (two_listing script succ) (Z.of_nat (length (decode_ops script))) = Some HDR_SPK.
+Proof.
+  intros script succ. unfold two_listing.
+  set (texts := map (fun o => (true, op_line o)) (decode_ops script) ++ [(false, HDR_SPK)] ++ map (fun o => (true, op_line o)) (decode_ops succ)).
+  assert (Hn: nth_error texts (length (decode_ops script)) = Some (false, HDR_SPK)).
+  { unfold texts. rewrite nth_error_app2 by (rewrite map_length; lia). rewrite map_length, Nat.sub_diag. reflexivity. }
+  rewrite marked_is_nth by (rewrite number_from_length; unfold texts; rewrite !app_length, !map_length; cbn [length]; lia).
+  rewrite Nat2Z.id. rewrite (number_from_nth texts 0 _ _ _ Hn). reflexivity.
+Qed.
+
+Lemma two_listing_nth_B : forall script succ pre op rest, decode_ops succ = pre ++ op :: rest ->
+  let k := Z.of_nat (length (decode_ops script)) + 1 + Z.of_nat (length pre) in
+  marked_line (two_listing script succ) k = Some (numbered k (op_line op)).
+Proof.
+  intros script succ pre op rest Hd k. unfold two_listing. rewrite Hd.
+  set (texts := map (fun o => (true, op_line o)) (decode_ops script) ++ [(false, HDR_SPK)] ++ map (fun o => (true, op_line o)) (pre ++ op :: rest)).
+  assert (Hk: Z.to_nat k = (length (decode_ops script) + S (length pre))%nat) by (unfold k; lia).
+  assert (Hn: nth_error texts (length (decode_ops script) + S (length pre)) = Some (true, op_line op)).
+  { unfold texts. rewrite nth_error_app2 by (rewrite map_length; lia). rewrite map_length.
+    replace (length (decode_ops script) + S (length pre) - length (decode_ops script))%nat with (S (length pre)) by lia.
+    cbn [app nth_error]. rewrite map_app. rewrite nth_error_app2 by (rewrite map_length; lia). rewrite map_length, Nat.sub_diag. reflexivity. }
+  rewrite marked_is_nth by (unfold k; rewrite number_from_length; unfold texts; rewrite !app_length, !map_length, app_length; cbn [length]; lia).
+  rewrite Hk. rewrite (number_from_nth texts 0 _ _ _ Hn). rewrite Z.add_0_l.
+  replace (Z.of_nat (length (decode_ops script) + S (length pre))) with k by (unfold k; lia). reflexivity.
+Qed.
+
+(* what the marker shows in every state of the invariant *)
+Theorem two_sections_marker : forall script succ v, succ <> [] -> inv2 script succ v ->
+  match i_pc v with
+  | _ :: _ => forall op pc', get_op (i_pc v) = (Some op, pc') ->
+               marked_line (two_listing script succ) (i_seq v) = Some (numbered (i_seq v) (op_line op))       (* the next operation *)
+  | [] => if (match i_succ v with [] => false | _ => true end)
+          then marked_line (two_listing script succ) (i_seq v) = Some HDR_SPK                                   (* the section entered next *)
+          else marked_line (two_listing script succ) (i_seq v) = None                                          (* nothing pending *)
+  end.
+Proof.
+  intros script succ v Hne (Ht & Hp & [(Hs & He & pre & Hd & Hq)|(Hs & He & pre & Hd & Hq)]).
+  - destruct (i_pc v) as [|b r] eqn:Epc.
+    + rewrite Hs. destruct succ; [contradiction|]. rewrite decode_ops_nil, app_nil_r in Hd. rewrite Hq, <- Hd. apply two_listing_nth_header.
+    + intros op pc' Hg. rewrite (decode_ops_cons _ _ _ Hg) in Hd. rewrite Hq. eapply two_listing_nth_A. exact Hd.
+  - destruct (i_pc v) as [|b r] eqn:Epc.
+    + rewrite Hs. rewrite decode_ops_nil, app_nil_r in Hd. apply marked_none_past_end.
+      rewrite Hq. unfold two_listing. rewrite number_from_length, !app_length, !map_length, <- Hd. cbn [length]. lia.
+    + intros op pc' Hg. rewrite (decode_ops_cons _ _ _ Hg) in Hd. rewrite Hq. eapply (two_listing_nth_B script succ pre op). exact Hd.
+Qed.
+
+(* the invariant holds at the start and is kept by every successful step, including the switch to the scriptPubKey *)
+Lemma inv2_init : forall script succ stack ed, i_p2sh (setup_env c script stack succ ed None) = false ->
+  inv2 script succ (setup_env c script stack succ ed None).
+Proof. intros script succ stack ed Hp. split; [reflexivity|]. split; [exact Hp|]. left. split; [reflexivity|]. split; [reflexivity|]. exists []. split; reflexivity. Qed.
+
+Theorem inv2_step : forall script succ v v', succ <> [] -> p2sh_shape (c_flags c) succ = false ->
+  inv2 script succ v -> dbg_step c v = (v', SOk) -> inv2 script succ v'.
+Proof.
+  intros script succ v v' Hne Hnp (Ht & Hp & Hph) H. unfold Session.dbg_step in H. rewrite Ht in H.
+  destruct (i_pc v) as [|b r] eqn:Epc.
+  - rewrite Hp in H. destruct Hph as [(Hs & He & pre & Hd & Hq)|(Hs & He & pre & Hd & Hq)].
+    + (* switch to the scriptPubKey *)
+      rewrite Hs in H. destruct succ as [|s0 sr]; [contradiction|]. rewrite Hnp in H. inversion H; subst v'. clear H.
+      split; [reflexivity|]. split; [reflexivity|]. right. cbn [i_succ i_e e_script i_pc i_seq].
+      split; [reflexivity|]. split; [reflexivity|]. exists []. split; [reflexivity|].
+      rewrite decode_ops_nil, app_nil_r in Hd. rewrite Hq, Hd. cbn [length]. lia.
+    + rewrite Hs in H. destruct (negb (cs_empty (e_cond (i_e v)))); [discriminate|]. inversion H; subst v'. clear H.
+      split; [exact Ht|]. split; [exact Hp|]. right. cbn. split; [exact Hs|]. split; [exact He|]. exists pre. split; assumption.
+  - destruct (step_script low_s c (i_e v) (b :: r) false) as [[e1 pc1] st] eqn:Es.
+    destruct st; try discriminate. inversion H; subst v'. clear H.
+    destruct (step_script_pc low_s c _ _ _ _ _ Es) as [op Hg].
+    pose proof (step_script_framed low_s c (i_e v) (b :: r) false) as Hf. cbv zeta in Hf. rewrite Es in Hf. cbn [fst snd] in Hf.
+    destruct Hf as [Hfr _]. unfold frs in Hfr. cbn [fst] in Hfr.
+    split; [exact Ht|]. split; [exact Hp|].
+    cbn [i_e i_pc i_seq i_succ set_seq set_hist upd set_pos e_script].
+    destruct Hph as [(Hs & He & pre & Hd & Hq)|(Hs & He & pre & Hd & Hq)]; [left|right];
+      (split; [exact Hs|]; split; [rewrite Hfr; exact He|]; exists (pre ++ [op]);
+       split; [rewrite Hd, (decode_ops_cons _ _ _ Hg), <- app_assoc; reflexivity|rewrite app_length; cbn [length]; lia]).
+Qed.
+
+(* main() builds exactly this listing for such a session *)
+Lemma session_listing_two : forall script succ stack ed, succ <> [] ->
+  i_p2sh (setup_env c script stack succ ed None) = false -> (has_flag (c_flags c) SCRIPT_VERIFY_P2SH && is_p2sh_script succ) = false ->
+  session_listing c (setup_env c script stack succ ed None) = two_listing script succ.
+Proof.
+  intros script succ stack ed Hne Hp Hnp. unfold session_listing, listing, listing_sections, two_listing.
+  cbn [i_tce i_succ i_e e_script setup_env]. rewrite Hp. destruct succ as [|s0 sr]; [contradiction|]. rewrite Hnp.
+  destruct (c_sigver c =? SV_TAPSCRIPT); cbn [map app concat]; rewrite ?app_nil_r; reflexivity.
+Qed.
+End TwoSections.
